@@ -16,6 +16,7 @@ State space (DESIGN.md §3 C10), a complete product lattice:
 Oracle: exact rational mass-action rate in SI; real quantities are observed through `quantities` only (unitalg.si).
 """
 import collections
+import itertools
 from fractions import Fraction as Fr
 
 from mc.core import Result
@@ -110,6 +111,7 @@ def chunks(tier):
     out = [("A", i) for i in range(len(SINGLE))] + [("E",)]
     for s in range(len(SHAPES)):
         out.append(("T", s))
+        out.append(("RH", s))
         for lo in range(0, len(regs), step):
             out.append(("K", s, lo, min(len(regs), lo + step)))
     for s in range(len(SHAPES)):
@@ -252,10 +254,11 @@ def _substances(shape):
 _BUILD = collections.OrderedDict()
 
 
-def _build(shape, rc, mode, ks, out=None):
-    """the real ReactionSystem + get_odesys result for one configuration (small LRU cache)"""
+def _build(shape, rc, mode, ks, out=None, reg=None):
+    """the real ReactionSystem + get_odesys result for one configuration (small LRU cache); with `reg` the given
+    registry object is used as it is (no cache): see op_rate_seq"""
     key = (shape, tuple(rc), mode, tuple(ks) if mode == "inline" else None, tuple(out) if out else None)
-    if key in _BUILD:
+    if reg is None and key in _BUILD:
         return _BUILD[key]
     env = E()
     chempy, ode = env["chempy"], env["ode"]
@@ -272,7 +275,9 @@ def _build(shape, rc, mode, ks, out=None):
     kw = {}
     if out:
         kw = dict(output_conc_unit=env["conc"][out[0]], output_time_unit=env["time"][out[1]])
-    odesys, extra = ode.get_odesys(rsys, include_params=(mode == "inline"), unit_registry=_registry(rc), **kw)
+    odesys, extra = ode.get_odesys(rsys, include_params=(mode == "inline"), unit_registry=(_registry(rc) if reg is None else reg), **kw)
+    if reg is not None:
+        return rsys, odesys, extra
     _BUILD[key] = (rsys, odesys, extra)
     while len(_BUILD) > 8:
         _BUILD.popitem(last=False)
@@ -437,11 +442,29 @@ def _check_p_units(res, case, mode, shape, ks, odesys, extra, p):
     res.outcomes["p_units-ok"] += 1
 
 
-def op_rate(res, shape, rc, mode, ks, ss):
+def op_rate_seq(res, shape, rc_seq, mode, ks, ss):
+    """ONE registry dict, modified in place between builds (reg['length'] = ...; get_odesys(..., unit_registry=reg)): every
+    build must use the registry as it is now — the whole sequence is one case"""
+    reg = dict(E()["cu"].SI_base_registry)
+    for n, rc in enumerate(rc_seq):
+        reg.update(_registry(tuple(rc)))
+        before = len(res.violations)
+        op_rate(res, shape, rc, mode, ks, ss, reg=reg, seq=[list(r) for r in rc_seq], step=n)
+        if len(res.violations) > before:
+            return
+
+
+def op_rate(res, shape, rc, mode, ks, ss, reg=None, seq=None, step=None):
     """physical d c/dt from the unit-aware ODE system = hand rate in mol/m3/s, whatever the units"""
     np = E()["np"]
     rc, ks = tuple(rc), tuple(ks)
-    case = dict(op="rate", args=[shape, list(rc), mode, list(ks), ss], shape=SHAPES[shape][0], registry=_reg_text(rc),
+    if seq is not None:
+        case = dict(op="rate_seq", args=[shape, seq, mode, list(ks), ss], shape=SHAPES[shape][0], registry="one dict modified in place: %r, step %d" % ([_reg_text(tuple(r)) for r in seq], step),
+                    k="3 %s**(1-n)/%s" % (CONC[ks[0]][0], TIME[ks[1]][0]))
+        mode_key = mode + "|registry-object-reused"
+    else:
+        mode_key = mode
+    case = case if seq is not None else dict(op="rate", args=[shape, list(rc), mode, list(ks), ss], shape=SHAPES[shape][0], registry=_reg_text(rc),
                 k="3 %s**(1-n)/%s" % (CONC[ks[0]][0], TIME[ks[1]][0]))
     res.states += 1
     res.transitions += 3
@@ -455,7 +478,7 @@ def op_rate(res, shape, rc, mode, ks, ss):
     ref = [float(hand[s]) for s in subs]
 
     def run():
-        rsys, odesys, extra = _build(shape, rc, mode, ks)
+        rsys, odesys, extra = _build(shape, rc, mode, ks, reg=reg)
         c, t = _state(ss)
         x, y, p = odesys.to_arrays(t, {s: c[s] for s in subs}, _params(shape, ks, mode))
         f = np.asarray(odesys.f_cb(x, y, p), dtype=float).reshape(-1, len(subs))[0]
@@ -465,7 +488,7 @@ def op_rate(res, shape, rc, mode, ks, ss):
     res.evaluations += 1
     if _isexc(got):
         res.outcomes["rate-RAISED"] += 1
-        res.violation("C10|get_odesys|%s|raises-for-accepted-system" % mode, "%s in registry %r, k in %s, state spelling %d: %s"
+        res.violation("C10|get_odesys|%s|raises-for-accepted-system" % mode_key, "%s in registry %r, k in %s, state spelling %d: %s"
                       % (case["shape"], case["registry"], case["k"], ss, got), case, got, ref)
         return
     names, f, odesys, extra, p = got
@@ -475,7 +498,7 @@ def op_rate(res, shape, rc, mode, ks, ss):
     ok = sorted(names) == sorted(subs) and all(abs(o - r) <= RTOL * scale for o, r in zip(obs, ref))
     if not ok:
         res.outcomes["rate-WRONG"] += 1
-        res.violation("C10|get_odesys|%s|physical-rate-differs-from-hand-rate" % mode, "%s in registry %r, k = %s, state spelling %d: dc/dt = %r mol/m3/s, by hand %r"
+        res.violation("C10|get_odesys|%s|physical-rate-differs-from-hand-rate" % mode_key, "%s in registry %r, k = %s, state spelling %d: dc/dt = %r mol/m3/s, by hand %r"
                       % (case["shape"], case["registry"], case["k"], ss, obs, ref), case, obs, ref)
     else:
         res.outcomes["rate-ok|%s" % mode] += 1
@@ -871,6 +894,14 @@ def run_chunk(chunk, tier):
         _layer_I(res, tier, *chunk[1:])
     elif kind == "V":
         _layer_V(res, tier, *chunk[1:])
+    elif kind == "RH":
+        shape = chunk[1]
+        regs = [(0, 0, 0, 0), (2, 0, 0, 0), (1, 1, 1, 0), (0, 1, 0, 0)]
+        for n in (2, 3):
+            for seq in itertools.permutations(regs, n):
+                for mode in ("inline", "named"):
+                    op_rate_seq(res, shape, [list(r) for r in seq], mode, (0, 0), 5)
+        res.sample(dict(layer="RH", shape=SHAPES[shape][0], registries=[_reg_text(r) for r in regs]))
     elif kind == "T":
         _layer_T(res, tier, chunk[1])
     else:
@@ -878,7 +909,7 @@ def run_chunk(chunk, tier):
     return res
 
 
-OPS = dict(accept=op_accept, accept_exponent=op_accept_exponent, eq=op_eq, eq_exponent=op_eq_exponent, rate=op_rate, integrate=op_integrate, validate=op_validate, solve=op_solve, to_arrays_reject=op_to_arrays_reject)
+OPS = dict(rate_seq=op_rate_seq, accept=op_accept, accept_exponent=op_accept_exponent, eq=op_eq, eq_exponent=op_eq_exponent, rate=op_rate, integrate=op_integrate, validate=op_validate, solve=op_solve, to_arrays_reject=op_to_arrays_reject)
 
 
 def replay(case):
